@@ -44,26 +44,42 @@ def site_key(f, org, bi, kind, op):
     return "%s|%s|%s|%s" % (f.key(), kind, op, h)
 
 
+def file_of(f):
+    return (f.root_fn().span or "?").split(":")[0]
+
+
 def analyse(prog):
     an = Analyzer(prog, Contracts())
     fns = lib_fns(prog)
-    an.infer_fields(fns)
+    # helpers that do not exist in the reference tree are analysed in the context of their call sites (inlined);
+    # they get a stand-alone run only when they are public or no call site could be followed
+    old = [f for f in fns if not (prog.is_new(f) and f.kind != "closure" and f.d.get("vis") != "pub")]
+    new = [f for f in fns if f not in old]
+    an.infer_fields(old)
     out = {}
     n_assert = 0
-    for f in fns:
-        n_assert += sum(1 for b in f.body["blocks"] if b["t"] and b["t"]["k"] == "assert")
+
+    def one(f):
         ret, finds = an.summary(f)
         if not finds:
-            continue
+            return
         org = Origins(f)
         for bi, kind, op, det, sp in finds:
             k = site_key(f, org, bi, kind, op)
             out.setdefault(k, (f, det, sp))
+
+    for f in fns:
+        n_assert += sum(1 for b in f.body["blocks"] if b["t"] and b["t"]["k"] == "assert")
+    for f in old:
+        one(f)
+    for f in new:
+        if f.id not in an.inlined:
+            one(f)
     return out, n_assert, an
 
 
 def load_unclaimed():
-    """{(fn|kind|op): allowed count}"""
+    """{(file|kind|op): allowed count}"""
     d = {}
     if os.path.exists(UNCLAIMED):
         for line in open(UNCLAIMED):
@@ -73,6 +89,13 @@ def load_unclaimed():
             parts = line.split("\t")
             d[parts[0]] = int(parts[1])
     return d
+
+
+def group_of(k, f):
+    _, kind, op, _ = k.rsplit("|", 3)
+    if kind == "rem_zero":   # `a % d` and `a / d` need the same fact about d: one group
+        kind = op = "div_zero"
+    return "%s|%s|%s" % (file_of(f), kind, op)
 
 
 def run(ctx, rep):
@@ -88,8 +111,7 @@ def run(ctx, rep):
         if (rep.pid, full) in rep.known:
             rep.fail("R08.4", k, "possible %s at display scale: %s" % (k.split("|")[1], det), at=sp, fn=f.path, detail=det)
             continue
-        g = k.rsplit("|", 1)[0]
-        groups.setdefault(g, []).append((k, f, det, sp))
+        groups.setdefault(group_of(k, f), []).append((k, f, det, sp))
     for g, items in sorted(groups.items()):
         allowed = unclaimed.get(g, 0)
         if len(items) <= allowed:
@@ -97,12 +119,13 @@ def run(ctx, rep):
             continue
         n_unclaimed += allowed
         f = items[0][1]
-        rep.fail("R08.4", g + "|excess", "%d %s/%s assert(s) in %s cannot be proved dead under the display-scale contracts, the reference tree has %d outside the claim: a guard, saturating operation or widening was removed, or new unchecked arithmetic was added. Candidates: %s"
-                 % (len(items), g.split("|")[-2], g.split("|")[-1], f.key(), allowed, "; ".join("%s [%s]" % (d, sp) for _, _, d, sp in items[:4])),
-                 status="undecided", at=items[0][3], fn=f.path, detail=[d for _, _, d, _ in items])
+        rep.fail("R08.4", g + "|excess", "%d %s/%s assert(s) in the functions of %s cannot be proved dead under the display-scale contracts, the reference tree has %d outside the claim: a guard, saturating operation or widening was removed, or new unchecked arithmetic was added. Candidates: %s"
+                 % (len(items), g.split("|")[-2], g.split("|")[-1], g.split("|")[0], allowed, "; ".join("%s: %s [%s]" % (ff.key(), d, sp) for _, ff, d, sp in items[:6])),
+                 status="undecided", at=items[0][3], fn=f.path, detail=["%s: %s" % (ff.key(), d) for _, ff, d, _ in items])
     rep.analysed["R08.4:asserts proved dead"] = proved
     rep.analysed["R08.4:asserts outside the claim (c08_unclaimed.txt)"] = n_unclaimed
     rep.analysed["R08.4:private fields with inferred ranges"] = len(an.field_rng)
+    rep.analysed["R08.4:helpers analysed at their call sites"] = len(an.inlined)
     # one obligation for the proved bulk
     rep.ok("R08.4", "proved-asserts", detail="%d of %d asserts proved dead" % (proved, n_assert))
     for a in an.contracts.describe():
@@ -111,11 +134,43 @@ def run(ctx, rep):
     rep.sample({"rule": "R08.4", "asserts": n_assert, "proved": proved, "inferred_field_ranges": {"%s.%s" % (k[0].split("::")[-1], k[1]): fmt(v) for k, v in ex}})
 
 
+def classify(kind, det):
+    if kind in ("div_zero", "rem_zero"):
+        return "divisor is a public scalar or a field whose non-zero invariant is relational/type-level"
+    if kind == "bounds":
+        return "index bound needs a relation between the index and the slice length"
+    if "2^31" in det or "2^32" in det or "2^63" in det or "2^64" in det or "inf" in det:
+        return "an operand is unbounded in the interval domain (public scalar operator argument, accumulator or iterator field needing a relational invariant)"
+    return "operands are correlated (non-relational imprecision), e.g. x*x - x/2"
+
+
 if __name__ == "__main__":
-    # baseline helper: print current unproved keys (group them by fn|kind|op for c08_unclaimed.txt)
+    # baseline helper: `--baseline` rewrites c08_unclaimed.txt from the current tree (review the diff!), otherwise prints keys
     import sys
     sys.path.insert(0, os.path.join(os.path.dirname(HERE), "engine"))
     from mirq import Program
     found, n, an = analyse(Program("default"))
-    for k, (f, det, sp) in sorted(found.items()):
-        print("%s\t%s" % (k, det))
+    if "--baseline" in sys.argv:
+        known = set()
+        for line in open(os.path.join(os.path.dirname(HERE), "KNOWN_FINDINGS.txt")):
+            if line.startswith("known:"):
+                for w in line.split():
+                    if w.startswith("R08.4:"):
+                        known.add(w)
+        groups = {}
+        for k, (f, det, sp) in sorted(found.items()):
+            if ("R08.4:" + k).replace(" ", "_") in known:
+                continue
+            groups.setdefault(group_of(k, f), []).append((f, det))
+        head = [l for l in open(UNCLAIMED) if l.startswith("#")] if os.path.exists(UNCLAIMED) else []
+        with open(UNCLAIMED, "w") as fh:
+            fh.writelines(head)
+            for g, items in sorted(groups.items()):
+                kind = g.split("|")[1]
+                why = sorted({classify(kind, d) for _, d in items})
+                fns = sorted({f.key().split("::")[-1] if not f.key().startswith("<") else f.key().rsplit(">::", 1)[-1] for f, _ in items})
+                fh.write("%s\t%d\toutside the claim: %s; in %s; e.g. %s\n" % (g, len(items), " / ".join(why), ", ".join(fns)[:160], items[0][1][:100]))
+        print("wrote", len(groups), "groups")
+    else:
+        for k, (f, det, sp) in sorted(found.items()):
+            print("%s\t%s" % (k, det))
